@@ -400,6 +400,58 @@ def gen_stale(tier):
     return cases
 
 
+def gen_zero_commit(tier):
+    """a granted jump committed with 0 (or 1) bytes, reader drained exactly to the mark (the buffer is empty at
+    the origin: any mark left behind is stale), a commit from the origin that reaches or passes the old mark,
+    reader advances that end on it"""
+    cases = []
+    cmax = 9 if tier == "quick" else 14
+    idx = 0
+    for c in range(5, cmax + 1):
+        for a in range(3, c):
+            for b in range(2, a):
+                for n in sorted(set([c - a + 1, b - 1])):
+                    if not (c - a < n < b):
+                        continue
+                    for k in (0, 1):
+                        if k > n:
+                            continue
+                        for drain in ("read", "rmove", "rfc-rmove"):
+                            pre = [("write", a), ("read", b), ("wfc", n), ("wmn", k), ("st",)]
+                            d = a - b + k
+                            if drain == "read":
+                                pre += [("read", d)]
+                            elif drain == "rmove":
+                                pre += [("rmove", d)]
+                            else:
+                                pre += [("rfc", a - b), ("rmove", a - b)] + ([("read", k)] if k else [])
+                            pre += [("st",)]
+                            for m in sorted(set([a - 1, a, a + 1, c - 1])):
+                                if m < 1 or m > c - 1:
+                                    continue
+                                for how in ("wmn", "write", "wmove"):
+                                    if how == "wmn":
+                                        land = [("wfc", m), ("wmn", m)]
+                                    elif how == "write":
+                                        land = [("write", m)]
+                                    else:
+                                        land = [("wmove", m)]
+                                    land += [("st",)]
+                                    for rd in ("to-mark-move", "to-mark-read", "all", "chunks"):
+                                        if rd == "to-mark-move":
+                                            post = [("rfc", min(a, m)), ("rmove", min(a, m)), ("st",), ("rfc", 1), ("read", 1)]
+                                        elif rd == "to-mark-read":
+                                            post = [("read", min(a, m)), ("st",), ("read", 1)]
+                                        elif rd == "all":
+                                            post = [("read", m)]
+                                        else:
+                                            post = [("read", 1), ("rmove", 1), ("fetch", 2)]
+                                        cases.append(mk_case("zc-%d-c%d-a%d-b%d-n%d-k%d-%s-m%d-%s-%s" % (
+                                            idx, c, a, b, n, k, drain, m, how, rd), c, with_drain(c, pre + land + post)))
+                                        idx += 1
+    return cases
+
+
 def _rand_size(rng, c, s):
     cands = [0, 1, a_cw(c, s), a_cw(c, s) + 1, a_jw(c, s), a_jw(c, s) + 1, a_wr(c, s), a_wr(c, s) + 1,
              a_cr(c, s), a_cr(c, s) + 1, a_cr(c, s) - 1, a_rd(c, s), a_rd(c, s) + 1, a_rd(c, s) - 1,
@@ -457,6 +509,7 @@ def generate(rng, tier):
     cases = []
     cases += gen_bfs(tier)
     cases += gen_stale(tier)
+    cases += gen_zero_commit(tier)
     if tier == "quick":
         cases += gen_random(rng.fork("small"), 1500, 2, 9, 40, "rnds")
         cases += gen_random(rng.fork("long"), 400, 2, 64, 300, "rndl")
